@@ -42,6 +42,7 @@ CONSTANTS NRows, NCols,          \* rows 1..NRows, abstract columns 1..NCols
           MaxRect,               \* most rows of an import rectangle
           BIds,                  \* "all": every non-empty id set; "whole": only the set of all rows
           Thrs,                  \* thresholds of TopIdsThr
+          FilterSkew,            \* TRUE: RecalcTopNFilter only where raw and filtered order differ
           TopNs,                 \* values of n for RecalcTopN / RecalcTopNFilter (0 = no limit)
           RecalcWeight,          \* multiplicity of Recalc among the successors (simulation)
           Rand,                  \* TRUE: one random instance per action class and step (simulation only)
@@ -146,8 +147,12 @@ TopIdsThr(ids, t) ==
   /\ On("TopIdsThr")
   /\ Query("TopIdsThr", t, 0, ids, PairsOf(ids, [r \in Rows |-> IF Cnt(rows)[r] >= t THEN Cnt(rows)[r] ELSE 0]))
 RecalcTopN(n)           == On("RecalcTopN") /\ ~over /\ Query("RecalcTopN", n, 0, {}, TopCounts(Cnt(rows), n))
+(* the order of the rows by count and their order by filtered count differ *)
+Skew(rw, fr) == \E r1, r2 \in Rows : Wt(rw[r1]) > Wt(rw[r2]) /\ Wt(rw[r1] \cap rw[fr]) < Wt(rw[r2] \cap rw[fr])
+
 RecalcTopNFilter(n, fr) ==
   /\ On("RecalcTopNFilter") /\ ~over
+  /\ FilterSkew => Skew(rows, fr)
   /\ Query("RecalcTopNFilter", n, fr, {}, TopCounts(FilterCnt(rows, fr), n))
 
 End ==
